@@ -29,7 +29,8 @@ fn closure(n: usize, gens: &Vec<Vec<usize>>) -> Vec<Vec<usize>> {
 
 pub fn run(only: &[String]) -> Vec<String> {
     let mut fails = Vec::new();
-    let want = |f: &str| only.is_empty() || only.iter().any(|x| x == f);
+    let whole = only.iter().any(|x| x.starts_with("Perm::"));   // the Permutation impl underlies every query
+    let want = |f: &str| only.is_empty() || whole || only.iter().any(|x| x == f);
     let mut nf = [0usize; 6];
     let deep = std::env::var("VERIF_BOUNDED_DEEP").is_ok();
     // thorough tier: also the 120 permutations of 5 slots (all single generators, every 11th pair)
